@@ -166,7 +166,7 @@ def step(sh: Shadow, i: int, op: dict[str, Any], r: dict[str, Any]) -> None:
                 n_inj += 1
             elif p["dflt"] == "uncalled":
                 bad = True
-        want = "typeError" if bad else ("ok" if n_inj else "warnNoInject")
+        want = "argError" if bad else ("ok" if n_inj else "warnNoInject")
         # python checks parameters in order and raises at the first offender; any offender => TypeError
         if first != want:
             sh.flag("C19", f"step {i}: inject() on {op['params']} gave {first}, expected {want}")
@@ -226,7 +226,7 @@ def step(sh: Shadow, i: int, op: dict[str, Any], r: dict[str, Any]) -> None:
         if not usable:
             want = "runtimeError"
         elif not op["callable"]:
-            want = "typeError"
+            want = "argError"
         else:
             want = "ok"
         if first != want:
@@ -265,13 +265,13 @@ def monitor_add(sh: Shadow, i: int, op: dict[str, Any], r: dict[str, Any], x: di
     if not usable:
         want = ["runtimeError"]
     elif op["types"] and op["badType"]:
-        want = ["typeError"]
+        want = ["argError"]
     elif op["val"] is None:
-        want = ["valueError"]
+        want = ["argError"]
     elif not valid_name(op["name"]):
-        want = ["valueError"]
+        want = ["argError"]
     elif op["tdBad"]:
-        want = ["typeError"]
+        want = ["argError"]
     elif any(visible(x, (ty, op["name"])) is not None for ty in types):
         want = ["conflict"]
     else:
@@ -299,11 +299,11 @@ def monitor_addf(sh: Shadow, i: int, op: dict[str, Any], r: dict[str, Any], x: d
     if x["state"] != "open":
         want = "runtimeError"
     elif not valid_name(op["name"]):
-        want = "valueError"
+        want = "argError"
     elif not op["types"]:
-        want = "valueError"
+        want = "argError"
     elif op["noneIn"]:
-        want = "typeError"
+        want = "argError"
     elif any((ty, op["name"]) in x["facs"] for ty in op["types"]):
         want = "conflict"
     else:
@@ -623,7 +623,7 @@ def replay_body(sh: Shadow, i: int, x: dict[str, Any], c: int, b: dict[str, Any]
     evs = evs if evs is not None else []
     if b["op"] == "add":
         if not valid_name(b["name"]):
-            return "valueError"
+            return "argError"
         if any(visible(x, (ty, b["name"])) is not None for ty in b["types"]):
             return "conflict"
         for ty in b["types"]:
@@ -657,7 +657,7 @@ def monitor_inject(sh: Shadow, i: int, op: dict[str, Any], r: dict[str, Any]) ->
     if any(s.startswith(("PASSTHROUGH-BAD", "DEFAULT-BAD")) for s in res):
         sh.flag("C19", f"step {i}: an ordinary argument did not pass through the injected call unchanged: {res}")
     if op.get("badUnion"):
-        if first != "typeError":
+        if first != "argError":
             sh.flag("C19", f"step {i}: a Union of two types was accepted for injection: {res}")
         return
     if c is None:
